@@ -2,7 +2,7 @@
 From Coq Require Import List Bool Arith NArith QArith.
 Import ListNotations.
 Require Import Coin CoinWord Rare Chain XorConv.
-Require GenProofs_FrameNoise GenProofs_PauliChan GenProofs_Herald.
+Require GenProofs_FrameNoise GenProofs_PauliChan GenProofs_Herald GenProofs_ElseChain.
 
 (* the coin stage of biased_randomize_bits: exactly p_top_bits of the 256 equally likely 8-coin strings yield a 1, for every
    p_top_bits < 128 (every probability the stage is used for) *)
@@ -44,5 +44,9 @@ Proof. exact GenProofs_PauliChan.pauli_channel_arguments_are_decoded_as_document
    into intervals of lengths hx, hz, hy *)
 Theorem C05_heralded_erase_uses_fresh_bits : GenProofs_Herald.herald_all_ok = true.
 Proof. exact GenProofs_Herald.heralded_erase_uses_fresh_bits. Qed.
+(* E / ELSE_CORRELATED_ERROR in both simulators (regenerated from source): an element is applied iff its coin fired and no earlier
+   element of the chain did *)
+Theorem C05_else_chain_steps_are_the_modelled_rule : GenProofs_ElseChain.elsechain_all_ok = true.
+Proof. exact GenProofs_ElseChain.else_chain_steps_are_the_modelled_rule. Qed.
 Print Assumptions C05_coin_stage_probability. Print Assumptions C05_word_model_lanes_are_coin_stages.
 Print Assumptions C05_gap_sampling_is_bernoulli. Print Assumptions C05_chain_is_disjoint.
